@@ -132,7 +132,7 @@ func genName(r *rand.Rand) string {
 	return s
 }
 
-var nErr, nOK, nEscapeNames, nSymlinked, nRaces, nRaceWinners int64
+var nErr, nOK, nEscapeNames, nSymlinked, nRaces, nRaceWinners, nHarmless int64
 
 func writeCase(r *rand.Rand, base string, idx int) {
 	run.Eval(1)
@@ -269,7 +269,32 @@ func writeCase(r *rand.Rand, base string, idx int) {
 	}
 	if err != nil {
 		atomic.AddInt64(&nErr, 1)
+		// 2b. an archive that gives Write no reason to fail: every name resolves to a place inside the
+		// directory, nothing existed there before, no two entries name the same file and none needs another
+		// one's file as a directory
+		if !anyOutside && len(pre) == 0 {
+			harmless := true
+			var rels []string
+			for _, e := range ents {
+				rel, _ := resolve(e.Name)
+				rels = append(rels, rel)
+			}
+			for i := range rels {
+				for j := range rels {
+					if i != j && (rels[i] == rels[j] || strings.HasPrefix(rels[j], rels[i]+"/")) {
+						harmless = false
+					}
+				}
+			}
+			if harmless {
+				atomic.AddInt64(&nHarmless, 1)
+				fail("error-for-harmless-archive", fmt.Sprintf("Write failed with %q although every entry names a new file inside the (empty) directory", err))
+			}
+		}
 		return
+	}
+	if !anyOutside && len(pre) == 0 {
+		atomic.AddInt64(&nHarmless, 1)
 	}
 	atomic.AddInt64(&nOK, 1)
 	// 3. on success each file holds exactly its entry's data
@@ -682,6 +707,7 @@ func main() {
 		r.Set("of_which_reported_failure", atomic.LoadInt64(&nExtractFaultsReported))
 		r.Sample(map[string]any{"kind": "tree", "files": genTree(r.Rand("sample"))})
 		r.Set("write_returned_error", atomic.LoadInt64(&nErr))
+		r.Set("write_cases_with_no_reason_to_fail", atomic.LoadInt64(&nHarmless))
 		r.Set("write_succeeded", atomic.LoadInt64(&nOK))
 		r.Set("archives_with_escaping_name", atomic.LoadInt64(&nEscapeNames))
 		r.Set("write_cases_with_a_symlink_at_an_entry_path", atomic.LoadInt64(&nSymlinked))
